@@ -69,9 +69,10 @@ def run(ctx):
             if li.kind != "loopin" or not isinstance(li.ast.target, ast.Name):
                 continue
             x = li.ast.target.id
-            it_ = li.ast.iter
-            if isinstance(it_, ast.Call) and (norm(it_.func).split(".")[-1] in ("_iter", "__next") or norm(it_.func).endswith("Iter")):
-                continue  # elements of a recursive / forwarded strategy call are restricted there
+            from ..iterflow import Seq as _Seq
+            itv = fl.loop_iter_values.get(id(li.ast))
+            if not isinstance(itv, _Seq) or itv.rec:
+                continue  # only loops over node sequences; elements of a recursive / forwarded strategy call are restricted there
             body_nodes = [n for n in cfg.nodes if n.id in cfg.reach_from(li, labels_excluded=("exc",)) and cfg.dominates(li, n)]
             heads = [n for n in cfg.nodes if n.kind == "fornext" and n.ast is li.ast]
             if not heads:
@@ -85,7 +86,10 @@ def run(ctx):
             abort_flags = {t.id for a in walk_own(f.node) if isinstance(a, ast.Assign) and any(
                 isinstance(c, ast.Call) and norm(c.func).endswith("_abort_at_level") for c in ast.walk(a.value))
                 for t in a.targets if isinstance(t, ast.Name)}
-            abort_true = [n for n in body_nodes if n.kind == "guard" and (
+            depth_cmp = [n for n in body_nodes if n.kind == "guard" and isinstance(n.cond, ast.Compare) and len(n.cond.ops) == 1 and (
+                (isinstance(n.cond.ops[0], (ast.Gt, ast.Lt, ast.GtE, ast.LtE)) and any(
+                    isinstance(x, ast.Name) and "maxlevel" in x.id for x in ast.walk(n.cond))))]
+            abort_true = depth_cmp + [n for n in body_nodes if n.kind == "guard" and (
                 (n.outcome is True and isinstance(n.cond, ast.Call) and norm(n.cond.func).endswith("_abort_at_level")) or
                 (isinstance(n.cond, ast.Name) and n.cond.id in abort_flags))]
             filter_tests = [n for n in body_nodes if n.kind == "test" and is_call_on_x(n.cond, ("filter_",))]
@@ -196,18 +200,35 @@ def run(ctx):
     else:
         ctx.viol("S3", ab, ab.node, "_abort_at_level is not `maxlevel is not None and level > maxlevel`", construct="_abort_at_level definition")
     gc = p.func("AbstractIter", "_get_children")
-    rets = [r for r in walk_own(gc.node) if isinstance(r, ast.Return)]
-    ok = False
-    if len(rets) == 1 and isinstance(rets[0].value, ast.ListComp) and len(rets[0].value.generators) == 1:
-        lc = rets[0].value
-        g = lc.generators[0]
-        if isinstance(g.target, ast.Name) and norm(lc.elt) == g.target.id and norm(g.iter) == gc.posparams[0] and len(g.ifs) == 1 \
-                and norm(g.ifs[0]) == "not %s(%s)" % (gc.posparams[1], g.target.id):
-            ok = True
-    if ok:
-        ctx.inst("S1", gc, rets[0], "_get_children keeps, in order, exactly the children for which stop is false")
+    if fl.get_children_ok is None:
+        fl.get_children_ok = fl.verify_get_children()
+    okg, retv = fl.get_children_ok
+    if okg:
+        ctx.inst("S1", gc, gc.node.name, "_get_children returns only nodes of its argument for which stop is false (%r)" % (retv,))
     else:
-        ctx.viol("S1", gc, gc.node, "_get_children is not `[c for c in children if not stop(c)]`", construct="_get_children definition")
+        ctx.viol("S1", gc, gc.node, "_get_children does not return exactly the children for which stop is false (abstract result %r)" % (retv,),
+                 construct="_get_children definition")
+    # completeness / order of _get_children: every child is either stopped or kept, in order
+    gcfg = typer.cfg_of(gc)
+    lc = [r.ast.value for r in gcfg.stmt_nodes(("return",)) if isinstance(r.ast.value, ast.ListComp)]
+    if lc:
+        g0 = lc[0].generators[0]
+        if len(lc[0].generators) == 1 and len(g0.ifs) == 1 and norm(lc[0].elt) == norm(g0.target) and norm(g0.iter) == gc.posparams[0]:
+            ctx.inst("S1", gc, lc[0], "comprehension keeps the children in order")
+        else:
+            ctx.viol("S1", gc, lc[0], "_get_children does not keep every non-stopped child in order", construct="_get_children comprehension")
+    else:
+        for li in gcfg.nodes:
+            if li.kind == "loopin":
+                heads = [h for h in gcfg.nodes if h.kind == "fornext" and h.ast is li.ast]
+                adders = [a for a in gcfg.nodes if a.kind == "stmt" and isinstance(a.ast, ast.Expr) and isinstance(a.ast.value, ast.Call)
+                          and isinstance(a.ast.value.func, ast.Attribute) and a.ast.value.func.attr == "append" and gcfg.dominates(li, a)]
+                stops = [g for g in gcfg.nodes if g.kind == "guard" and g.outcome is True and isinstance(g.cond, ast.Call) and norm(g.cond.func) == gc.posparams[1]]
+                reach = gcfg.reach_from(li, avoid=adders + stops, labels_excluded=("exc",))
+                if norm(li.ast.iter) != gc.posparams[0] or any(h.id in reach for h in heads) or gcfg.exit.id in reach:
+                    ctx.viol("S1", gc, li.ast, "_get_children does not keep every non-stopped child in order", construct="_get_children loop")
+                else:
+                    ctx.inst("S1", gc, li.ast, "loop keeps every non-stopped child in order")
     rule_init_stores(ctx, "AbstractIter", rule="S4")
     init = p.func("AbstractIter", "__init")
     defaults = {"__default_filter": True, "__default_stop": False}
